@@ -14,7 +14,10 @@
 (* "mutate-all-reachable" is the closure of Hack over every slot: the      *)
 (* harness overwrites every container reachable from the instance and      *)
 (* every value an operator hands out (matrix, ...), and the probe renders  *)
-(* everything a fresh instance can reach.                                  *)
+(* everything a fresh instance can reach.  "library-calls" is not a program *)
+(* at all: every reader and writer of the library is used once (package-    *)
+(* level state such as default options or the standard encoding table must  *)
+(* not be written by any of them).                                           *)
 (***************************************************************************)
 EXTENDS Integers, Sequences, TLC, Json, CSV
 
@@ -51,7 +54,7 @@ Next == (Family = "model" /\ \E i \in Inst : New(i) \/ \E sl \in Slots : Hack(i,
         (Family = "hist" /\ Len(hist) < MaxHist /\
              \E a \in {"redefine-operator", "overwrite-operator-with-garbage", "put-encoding-slot", "alter-cidinit",
                        "alter-errordict", "fail-halfway", "define-font-and-resource", "copy-userdict-into-systemdict",
-                       "rebind-true-false", "grow-stacks-and-fail", "mutate-all-reachable"} :
+                       "rebind-true-false", "grow-stacks-and-fail", "mutate-all-reachable", "library-calls"} :
                  hist' = Append(hist, a) /\ UNCHANGED <<tmpl, inst>>)
 
 TemplatesUntouched == tmpl = "orig"
